@@ -185,12 +185,31 @@ ChangeInfoProblem(o, d, ci) ==
              /\ (inc <=> ci[2] > ci[1])
           THEN "ok" ELSE "C13:changeinfo"
 
+\* The change counter of directory c after the call, as observed (a call
+\* never modifies a directory after it has read its change counter).
+ChgKnown(o, c) == c \in DOMAIN o.S.dirs /\ ~(\E i \in 1 .. Len(Line.proj) : Line.proj[i].id = c /\ Line.proj[i].busy)
+ChgAfter(o, c) == AdoptDir(o, c, Line.proj).chg
+
+\* Attributes that come with a child (lookup: Line.oak / Line.ochg; listing:
+\* the chg of an entry; -1 = the change counter was not requested).  They
+\* must be those of the very node that is returned: its type, and for a
+\* directory its own change counter - not the parent's, not a stale one.
+ListedChgProblem(o) ==
+  \E i \in 1 .. Len(Line.list) :
+     LET e == Line.list[i] IN
+     e.k = "d" /\ e.chg >= 0 /\ ChgKnown(o, e.c) /\ e.chg # ChgAfter(o, e.c)
+
 \* reply of the call against the outcome
 ReplyProblem(o) ==
   LET op == Line.op  d == Line.d IN
   IF op \in {"lookup", "lookupchild", "mkdir", "mknod", "open", "enter"} /\ o.st = "OK"
      /\ (Line.ret.k # o.ret.k \/ Line.ret.c # o.ret.c)
   THEN "C13:wrong-child-returned"
+  ELSE IF op = "lookup" /\ o.st = "OK" /\ Line.oak # "" /\ Line.oak # o.ret.k
+  THEN "C13:lookup-returned-attributes-of-another-node"
+  ELSE IF op = "lookup" /\ o.st = "OK" /\ o.ret.k = "d" /\ Line.ochg >= 0
+          /\ ChgKnown(o, o.ret.c) /\ Line.ochg # ChgAfter(o, o.ret.c)
+  THEN "C13:lookup-reported-wrong-change-counter"
   ELSE IF op \in {"mkdir", "mknod", "link", "open", "vremove"} /\ o.st = "OK"
           /\ ChangeInfoProblem(o, d, Line.ci) # "ok"
   THEN "C13:changeinfo"
@@ -202,6 +221,7 @@ ReplyProblem(o) ==
            want == SubSeq(rest, 1, IF Len(rest) < Line.page THEN Len(rest) ELSE Line.page)
        IN IF Ents(Line.list) # want THEN "C13:listing-page"
           ELSE IF Line.more # (Len(rest) > Line.page) THEN "C13:listing-end"
+          ELSE IF ListedChgProblem(o) THEN "C13:listing-reported-wrong-change-counter"
           ELSE "ok"
   ELSE IF op = "listall" /\ o.st = "OK"
   THEN LET vis == VisibleEnts(After(o, d)) IN
